@@ -21,7 +21,7 @@ def run(ctx):
     led.explanation = EXPLANATION
     led.assumptions = ["float(str(x)) == x for Python floats (repr round-trip)", "C07.reparse", "C09.quantised (score prints with one decimal)"]
     from ..rules_parse import InfoLedger
-    from ..rules_rh_sem import check_rh_semantics
+    from ..rules_rh_sem import check_rh_history, check_rh_semantics
     from ..srcmodel import AnalysisError
 
     n_sem = 0
@@ -32,6 +32,7 @@ def run(ctx):
         # When the function cannot be interpreted the check stops as undecided (exit 2): neither
         # the silence nor the complaints of the idiom rules decide then.
         n_sem += check_rh_semantics(ctx, led, v)
+        check_rh_history(ctx, led, v)
         try:
             RR.check_from_rh(ctx, InfoLedger(led), v)
         except AnalysisError as e:
